@@ -46,6 +46,7 @@ def _run_case(task):
     d = ex.stats.as_dict()
     d["wall"] = time.time() - t0
     d["case"] = [fname, kwargs]
+    d["prefix"] = list(opts.get("prefix", ()))
     if err:
         d["errors"].append(err)
     return idx, d
@@ -113,7 +114,15 @@ def run_check(harness_name, tier, seed=0, jobs=None, only=None):
         opts = dict(default_opts)
         if len(c) > 2 and c[2]:
             opts.update(c[2])
-        tasks.append((i, fname, kwargs, opts))
+        split = opts.pop("split", 0)
+        if split:
+            import itertools
+            for pre in itertools.product((False, True), repeat=split):
+                o2 = dict(opts)
+                o2["prefix"] = pre
+                tasks.append((len(tasks), fname, kwargs, o2))
+        else:
+            tasks.append((len(tasks), fname, kwargs, opts))
     jobs = jobs or min(16, os.cpu_count() or 4, max(1, len(tasks)))
     budget = getattr(h, "BUDGET_S", {}).get(tier, 3000)
     ctxm = mp.get_context("fork")
@@ -155,7 +164,7 @@ def run_check(harness_name, tier, seed=0, jobs=None, only=None):
             harness_errors.append("case %s %s: %s" % (d["case"][0], json.dumps(d["case"][1]), e))
         case_rows.append({"case": d["case"], "paths": d["paths"], "obligations": d["obligations"],
                           "discharged": d["discharged"], "queries": d["queries"], "wall_s": round(d["wall"], 2)})
-        if d["paths"] == 0 and not d["errors"]:
+        if d["paths"] == 0 and not d["errors"] and not d.get("prefix"):
             harness_errors.append("case %s %s: no path reached the obligations (vacuous)" % (d["case"][0], json.dumps(d["case"][1])))
     if agg["twins"] != agg["twins_sat"]:
         harness_errors.append("reachability twins: %d of %d not sat" % (agg["twins"] - agg["twins_sat"], agg["twins"]))
